@@ -153,4 +153,25 @@ def simulate (v : Variant) : Nat → Sim → Sim × String
         | .go rl => simulate v fuel { rl := rl, br := br, seq := seq, fetched := true, journal := journal }
         | .stop rl why => ({ rl := rl, br := br, seq := seq, fetched := true, journal := journal }, why)
 
+/-- a fetcher whose consumer stops taking messages: it runs until it holds message number `target` (the application
+has taken some, the queue is full, one more is in its hand: it blocks in sendMessage) or idles at the high watermark -/
+def simulateN (v : Variant) : Nat → Nat → Sim → Sim
+  | 0, _, s => s
+  | fuel + 1, target, s =>
+    if s.rl.out.length ≥ target then s
+    else if !s.rl.connOpen then
+      match initializeRL s.rl s.br.first s.br.hwm with
+      | none => s
+      | some rl => simulateN v fuel target { s with rl := rl, fetched := false }
+    else
+      let seq := if s.fetched then s.seq else s.seq + 1
+      let journal := if s.journal.getLast? = some (seq, s.rl.connOff) then s.journal else s.journal ++ [(seq, s.rl.connOff)]
+      let (br, a) := s.br.answer s.rl.connOff
+      match a with
+      | .idle => { s with seq := seq, fetched := true, journal := journal, br := br }
+      | a =>
+        match onAnswer v s.rl br.hwm br.first br.hwm a with
+        | .go rl => simulateN v fuel target { rl := rl, br := br, seq := seq, fetched := true, journal := journal }
+        | .stop rl _ => { rl := rl, br := br, seq := seq, fetched := true, journal := journal }
+
 end KV.C02
